@@ -341,7 +341,7 @@ def response(cx):
     cx.check(n >= 2, "floor", "both outcomes of a snapshot install are acknowledged")
 
 
-@obligation("SNAP.request_index", ["C15", "C03", "C05"], floor=3, kind="value shape + guard + argument pass-through",
+@obligation("SNAP.request_index", ["C15", "C03", "C05", "C01"], floor=3, kind="value shape + guard + argument pass-through",
             why="a requested snapshot is installed unconditionally and replaces the whole log: it must cover everything the follower has acknowledged, i.e. be asked for at last_index()")
 def request_index(cx):
     PRS = "RaftCore.pending_request_snapshot"
